@@ -272,6 +272,8 @@ def call_numpy(it, tail, args, kwargs, env, node, chain):
         numv = a[2] if len(a) > 2 else kw(kwargs, "num", num(50))
         endpoint = kw(kwargs, "endpoint", True)
         return op("linspace", t[0], t[1], to_term(numv), to_term(endpoint))
+    if tail == "expand_dims" and len(t) >= 2:
+        return op("expand_dims", t[0], t[1])
     if tail == "fft.rfftfreq":
         # n//2 + 1 bins from 0 up to and including the Nyquist frequency 1/(2d) (n even)
         nn = t[0]
@@ -567,6 +569,10 @@ def term_getitem(it, base, idx, env, node):
         r = read_store_chain(base, to_term(idx))
         if r is not None:
             return r
+    if isinstance(base, (sp.Mul, sp.Add)) and isinstance(to_term(idx), sp.Tuple) and any(_is_broadcast_axis(a) for a in base.args) \
+            and all(is_scalar_term(a) or _is_broadcast_axis(a) for a in base.args):
+        # outer products written with inserted axes: element (i, j) of x[:, None] * y[None, :] is x[i] * y[j]
+        return element_of(it, base, idx)
     if isinstance(base, (sp.Mul, sp.Add)) and _concrete_index(to_term(idx)):
         parts = []
         okd = True
@@ -581,6 +587,13 @@ def term_getitem(it, base, idx, env, node):
         if okd:
             return base.func(*parts)
     return op("item", base, to_term(idx))
+
+
+def _is_broadcast_axis(a) -> bool:
+    if fname(a) == "expand_dims":
+        return True
+    return fname(a) == "item" and isinstance(a.args[1], sp.Tuple) and NONE_T in a.args[1].args and all(
+        x == NONE_T or fname(x) == "slc" for x in a.args[1].args)
 
 
 def _concrete_index(ti) -> bool:
@@ -1052,4 +1065,17 @@ def element_of(it, arr, idx):
         return sp.Integer(0)
     if arr.is_number:
         return arr
+    # inserted length-one axes only broadcast: np.expand_dims(x, k), x[None, :], x[:, None]
+    if isinstance(ti, sp.Tuple):
+        full = op("slc", NONE_T, NONE_T, NONE_T)
+        if f == "expand_dims" and len(arr.args) == 2 and arr.args[1].is_Integer:
+            k = int(arr.args[1])
+            k = k if k >= 0 else len(ti.args) + k
+            if 0 <= k < len(ti.args):
+                rest = [x for j, x in enumerate(ti.args) if j != k]
+                return element_of(it, arr.args[0], sp.Tuple(*rest) if len(rest) != 1 else rest[0])
+        if f == "item" and isinstance(arr.args[1], sp.Tuple) and len(arr.args[1].args) == len(ti.args) \
+                and all(x == NONE_T or x == full for x in arr.args[1].args) and NONE_T in arr.args[1].args:
+            rest = [x for x, sel in zip(ti.args, arr.args[1].args) if sel == full]
+            return element_of(it, arr.args[0], sp.Tuple(*rest) if len(rest) != 1 else rest[0])
     return term_getitem(it, arr, idx, None, None)
